@@ -40,8 +40,119 @@ def units(tier):
     rng = random.Random(seed())
     specs, _ = small_specs(tier, rng, nrand_quick=60, nrand_thorough=600, chains_quick=40, chains_thorough=500, fixed_quick=150, fixed_thorough=2000)
     maxtok = 4 if tier == "quick" else 5
-    return [{"specs": [s.to_json() for s in ch], "maxtok": maxtok, "seed": seed() * 1000 + i}
-            for i, ch in enumerate(chunks(specs, 48))]
+    us = [{"specs": [s.to_json() for s in ch], "maxtok": maxtok, "seed": seed() * 1000 + i}
+          for i, ch in enumerate(chunks(specs, 48))]
+    us.append({"special": True, "seed": seed()})
+    return us
+
+
+LINE_GRAMMARS = [
+    ('S: Line+;\nLine: "a" "=" "1" NL | "b" NL;\nterminals\nNL: /\\n/;\n',
+     ["a = 1\nb\n", "a = 1\nb =\na = 1\n", "a =\n", "\n", "a = 1\n\nb\n", "b\na 1\n", "a = 1", "b\n\n"]),
+    ('S: "x" S | "x";\n', ["x\nx y", "x\n\n", "xx\n?", "x \ny"]),
+]
+
+
+def rec_int(input, pos):
+    return input[pos:pos + 1] if isinstance(input[pos], int) else None
+
+
+def rec_str(input, pos):
+    return input[pos:pos + 1] if isinstance(input[pos], str) else None
+
+
+LIST_GRAMMAR = "S: INT STRING+ INT | INT;\nterminals\nINT: ;\nSTRING: ;\n"
+LIST_INPUTS = [[], [1], [1, "a"], [1, "a", "b"], [1, "a", 2, 3], ["a"], [1, 2], [1, "a", "b", 2], [1, "a", None]]
+
+
+def run_special(u, res):
+    """Line-oriented grammars with layout that excludes the newline (ws=' \\t', ws=None) and list inputs
+    with user recognizers: exception type, position, line/column, end-of-file wording, rendering."""
+    st = res["stats"]
+    for gtxt, inputs in LINE_GRAMMARS:
+        g = Grammar.from_string(gtxt)
+        num = Numbering(g)
+        for ws in (" \t", None, "\n\r\t "):
+            for cls in (Parser, GLRParser):
+                try:
+                    p = cls(g, ws=ws)
+                except Exception:
+                    continue
+                b = Batch()
+                b.add("grammar", enc_grammar(num))
+                checks = []
+                for text in inputs:
+                    case = {"grammar": gtxt, "parser": cls.__name__, "ws": ws, "input": text}
+                    try:
+                        p.parse(text)
+                        continue
+                    except parglare.SyntaxError as e:
+                        err = e
+                    except Exception as e:
+                        res["violations"].append({"kind": "foreign-exception", "case": case,
+                                                  "observed": type(e).__name__ + ": " + str(e)[:100]})
+                        continue
+                    res["evaluations"] += 1
+                    pos = err.location.start_position
+                    try:
+                        msg = str(err)
+                        line, col = err.location.line, err.location.column
+                    except Exception as ex:
+                        res["violations"].append({"kind": "rendering-fails", "case": case,
+                                                  "observed": type(ex).__name__})
+                        continue
+                    if ("unexpected end of file" in msg) != (pos == len(text)):
+                        res["violations"].append({"kind": "end-of-file-wording", "case": case,
+                                                  "observed": [pos, len(text), msg[:80]]})
+                    b.add("input", enc_input(num, p, text))
+                    qv = b.add("viable", CHART_FUEL)
+                    ql = b.add("linecol", pos, [ord(c) for c in text])
+                    checks.append((case, pos, line, col, qv, ql, skip_table(p, text)))
+                out = b.run()
+                st["traces"] += len(checks)
+                for case, pos, line, col, qv, ql, skip in checks:
+                    if out[ql] != "linecol %d %d" % (line, col):
+                        res["violations"].append({"kind": "line-column-do-not-match-position", "case": case,
+                                                  "observed": [line, col], "expected": out[ql]})
+                    if out[qv].startswith("viable ") and out[qv] != "viable fuel":
+                        ends = [int(x) for x in out[qv].split()[1:]]
+                        if pos != skip[max(ends)]:
+                            res["violations"].append({"kind": "error-not-at-first-offending-token", "case": case,
+                                                      "observed": pos, "expected": skip[max(ends)]})
+                    res["nontrivial"].append(h16(case))
+    # list (non-string) inputs
+    g = Grammar.from_string(LIST_GRAMMAR, recognizers={"INT": rec_int, "STRING": rec_str})
+    for cls in (Parser, GLRParser):
+        p = cls(g, ws=None)
+        for inp in LIST_INPUTS:
+            case = {"grammar": LIST_GRAMMAR, "parser": cls.__name__, "input": repr(inp)}
+            try:
+                p.parse(inp)
+                continue
+            except parglare.SyntaxError as e:
+                err = e
+            except Exception as e:
+                res["violations"].append({"kind": "foreign-exception", "case": case,
+                                          "observed": type(e).__name__ + ": " + str(e)[:100]})
+                continue
+            res["evaluations"] += 1
+            bump(st, "list_input_errors")
+            try:
+                msg = str(err)
+                line, col = err.location.line, err.location.column
+            except Exception as ex:
+                res["violations"].append({"kind": "rendering-fails", "case": case,
+                                          "observed": type(ex).__name__ + ": " + str(ex)[:80]})
+                continue
+            pos = err.location.start_position
+            if ("unexpected end of file" in msg) != (pos == len(inp)):
+                res["violations"].append({"kind": "end-of-file-wording", "case": case,
+                                          "observed": [pos, len(inp), msg[:80]]})
+            if (line, col) != (1, pos):
+                res["violations"].append({"kind": "line-column-do-not-match-position", "case": case,
+                                          "observed": [line, col], "expected": [1, pos]})
+            res["nontrivial"].append(h16(case))
+    return res
 
 
 def run_unit(u):
@@ -50,6 +161,8 @@ def run_unit(u):
                      "expected_sets_compared": 0, "traces": 0, "build_errors": {}}}
     rng = random.Random(u["seed"])
     st = res["stats"]
+    if u.get("special"):
+        return run_special(u, res)
     for sj in u["specs"]:
         spec = gen.GSpec.from_json(sj)
         gtxt = spec.text()
